@@ -1,5 +1,6 @@
 import TpmVerif.Base.Trace
 import TpmVerif.Model.Session
+import TpmVerif.Model.Context
 /-! Correspondence checker for C11 traces (session accounting). -/
 namespace TpmVerif.Check.C11
 open TpmVerif TpmVerif.Model.Session
@@ -93,6 +94,18 @@ def step (c : CS) (l : Line) : CS :=
       let c := if l.nat "hr_loaded" > NLOAD ∨ l.nat "hr_active" > NACT then mism c "SPEC[limit-exceeded] more sessions than advertised" else c
       c
   | "capsnap" => { c with snap := l.str "loaded" ++ "/" ++ l.str "saved" }
+  | "ctxblob" =>
+      -- the saved context as returned, with the secrets it is protected with: recompute integrity and fingerprint
+      let blob := l.bytes "blob"; let proof := l.bytes "proof"
+      let seq := l.nat "seq"; let h := l.nat "saved_h"
+      let c := branch c s!"ctxblob/hier={l.nat "hier"}/handle={h}"
+      match TpmVerif.Model.Context.splitBlob blob with
+      | none => mism c "SPEC[context-integrity] contextBlob has no integrity field"
+      | some (integ, enc) =>
+        let exp := TpmVerif.Model.Context.integrity proof (l.nat "total") (l.nat "clear") seq h enc
+        let c := if integ ≠ exp then mism c s!"SPEC[context-integrity] integrity {hexOfBytes integ} ≠ HMAC(proof, resetCount ‖ sequence ‖ handle ‖ blob) = {hexOfBytes exp}" else c
+        if !TpmVerif.Model.Context.accepts proof (l.nat "total") (l.nat "clear") seq h blob then
+          mism c s!"SPEC[context-fingerprint] the saved context does not decrypt to its sequence number {seq} under KDFa(proof, CONTEXT, sequence, handle)" else c
   | "mutload" =>
       let c := branch c s!"mutload/kind={l.nat "kind"}/rcclass={if l.nat "rc" = 0 then 0 else 1}"
       if l.nat "rc" = 0 then mism c s!"SPEC[altered-context-loaded] an altered context blob (mutation kind {l.nat "kind"}) was accepted by ContextLoad" else c
